@@ -95,6 +95,7 @@ class Adapter:
     def __init__(self, langs=None, namemaps=('plain',), **kw):
         self.langs = langs or {}
         self.namemaps = namemaps
+        self.seen = set()
 
     def on_timeout(self, case):
         return {'steps': 1, 'div': [{'kind': 'timeout', 'action': 'RoundTrip', 'component': 'timeout', 'features': [],
@@ -111,6 +112,11 @@ class Adapter:
         exp = norm_expected(hist[-1]['obs'])
         if hist[-1]['act']['res'] == 'collide':
             return res
+        # many histories end in the same state: each distinct final state is round-tripped once per worker
+        key = lang + canon(exp)
+        if key in self.seen:
+            return res
+        self.seen.add(key)
         feats = set()
         if any(a['id'] == 0 for a in exp['assets']):
             feats.add('id_zero')
